@@ -33,8 +33,9 @@ def extra(led, tier, seed):
     from contracts import gemini_large
     led.extend(gemini_large.obligations(seed, tier))
     led.extend(lean_bounds.obligations(tier))
+    led.extend(lean_bounds.obligations(tier, file="Lemmas.lean", lemmas=["adjacent_swaps_generate"], fn="specs.gemini (lemma L8)"))
     led.assume("A1", "A2", "A3", "A4", "A8",
-               "L8: adjacent transpositions generate the symmetric group, so equivariance under them gives all permutations",
+               "L8 (Mathlib: Equiv.Perm.mclosure_swap_castSucc_succ, re-checked in lean/Lemmas.lean): adjacent transpositions generate the symmetric group, so equivariance under them gives all permutations",
                "Wasserstein: W(a, a) = 0 (the affinity is a metric: zero self-distance), determinism and marginal-swap symmetry of ot.emd2 are part of its assumed contract",
                "Wasserstein: invariance under a reordering of the samples is relative to the permutation-equivariance of ot.emd2 (assumed; not checked)",
                "non-negativity and the unit bounds of TV / Hellinger follow from the Lean lemmas on the specification distances together with the C01 identity score == sum pi * D and pi >= 0, sum pi = 1",
